@@ -22,6 +22,9 @@ func leaves9() []expr.Expr {
 	return []expr.Expr{
 		ir.ConstU(0, 1), ir.ConstU(1, 1), ir.ConstU(0xff, 1), ir.ConstU(0x0100, 2), ir.ConstU(0xffff, 2),
 		expr.NewRegLoad("r1", 1), expr.NewRegLoad("r1", 2), expr.NewRegLoad("r1", 4), expr.NewRegLoad("r2", 1),
+		// a constant in an unusual but legal form: narrowed from a wider one, so its byte slice has
+		// spare capacity holding the non-zero bytes that were cut off (value 0x2211, hidden 0x4433)
+		ir.ConstU(0x44332211, 4).WithWidth(2),
 	}
 }
 
